@@ -530,7 +530,7 @@ fn run_shard(ctx: &ShardCtx) {
     );
     ctx.run_prop(
         "fault-random",
-        ctx.tier.pick(600_000, 6_000_000),
+        ctx.tier.pick(2_000_000, 12_000_000),
         strat,
         |(c, k, p, sfx)| {
             let mut suffix = sfx.clone();
